@@ -42,6 +42,9 @@ def strategy(draw, tier="quick"):
     cells = draw(gen.cells(nf, lmin=1.0, lmax=12.0, kinds=["cubic", "ortho", "ortho", "ortho", "mono", "hex", "troct", "rhdo", "tric", "tric", "near-ortho"]))
     big = draw(st.integers(0, 14)) == 0
     n = draw(st.integers(80, 150)) if big else draw(st.integers(1, 60))
+    huge = (not big) and draw(st.integers(0, 59)) == 0
+    if huge:
+        n = draw(st.integers(300, 450))        # enough atoms for every voxel of a grid many cutoffs wide to be populated
     cp = draw(gen.coord_params(n_atoms=n, classes=["inside", "inside", "spread", "spread", "faces", "clustered", "mixed", "mixed", "paired-inside", "paired-inside", "flat"]))
     cp["offset"] = draw(st.sampled_from([0.0, 0.0, 0.0, 30.0]))
     q = sorted(set(draw(st.lists(st.integers(0, n - 1), min_size=1, max_size=min(n, 6)))))
@@ -57,6 +60,9 @@ def strategy(draw, tier="quick"):
             "query": q, "haystack": hay, "periodic": draw(st.sampled_from([True, True, True, False])),
             "voxel_snap": draw(st.booleans()), "nl_frame": draw(st.integers(0, nf - 1)),
             "idxv": draw(st.sampled_from([0, 0, 0, 1, 2, 5, 6, 12, 30]))}     # containers of haystack (idxv % 6) and query (idxv // 6)
+    if huge:
+        case["cut_frac"] = draw(st.sampled_from([0.25, 0.5, 0.5]))
+        case["coords"]["cls"] = "inside"
     case["coords"]["pair_scale"] = case["cut_frac"]
     if "C10-nlist-skewed-large-cutoff" in _open_keys() and WHERE["C10-nlist-skewed-large-cutoff"](case, None):
         # excluded by construction: the neighbour-list part of this case runs with the cutoff capped at 0.75 of the
